@@ -119,6 +119,7 @@ func coqOutcome(o llo.Outcome) string {
 type mockRetirementCache struct {
 	mu       sync.Mutex
 	attested []byte            // what honest successor nodes attach (nil until the predecessor retired)
+	fail     bool              // AttestedRetirementReport returns an error
 	accepted map[string][]byte // attested blob -> retirement report bytes it attests
 }
 
@@ -137,6 +138,9 @@ func (c *mockRetirementCache) publish(report []byte) {
 func (c *mockRetirementCache) AttestedRetirementReport(types.ConfigDigest) ([]byte, error) {
 	c.mu.Lock()
 	defer c.mu.Unlock()
+	if c.fail {
+		return nil, errors.New("retirement report cache unavailable")
+	}
 	return c.attested, nil
 }
 func (c *mockRetirementCache) CheckAttestedRetirementReport(_ types.ConfigDigest, blob []byte) (llo.RetirementReport, error) {
@@ -149,17 +153,31 @@ func (c *mockRetirementCache) CheckAttestedRetirementReport(_ types.ConfigDigest
 	return llo.StandardRetirementReportCodec{}.Decode(rep)
 }
 
-type mockShouldRetire struct{ v bool }
+type mockShouldRetire struct {
+	v    bool
+	fail bool
+}
 
-func (m *mockShouldRetire) ShouldRetire(types.ConfigDigest) (bool, error) { return m.v, nil }
+func (m *mockShouldRetire) ShouldRetire(types.ConfigDigest) (bool, error) {
+	if m.fail {
+		return false, errors.New("should-retire cache unavailable")
+	}
+	return m.v, nil
+}
 
 type mockDefs struct{ defs llotypes.ChannelDefinitions }
 
 func (m *mockDefs) Definitions() llotypes.ChannelDefinitions { return m.defs }
 
-type mockDataSource struct{ vals map[uint32]*svDesc }
+type mockDataSource struct {
+	vals map[uint32]*svDesc
+	fail bool
+}
 
 func (m *mockDataSource) Observe(_ context.Context, sv llo.StreamValues, _ llo.DSOpts) error {
+	if m.fail {
+		return errors.New("data source unavailable")
+	}
 	for id := range sv {
 		if d, ok := m.vals[id]; ok {
 			sv[id] = d.value()
